@@ -103,7 +103,36 @@ Check ==
                                                   event |-> [x \in DOMAIN e \ {"ht"} |-> e[x]], judge |-> Explain(e)])>>)
     /\ UNCHANGED <<apex, zone, cid>>
 
-Next == l <= Len(Rec) /\ l' = l + 1 /\ (Reset \/ Check)
+(* Audit of the published chain (event "chain": published = every NSEC3 record *)
+(* of the signed zone, ht = real hashes of every name that may have an entry): *)
+(* it must be the chain the specification derives from the zone (Chain3):      *)
+(* one record per authoritative owner and per empty non-terminal above one,    *)
+(* bitmap = the types at the name (empty only for empty non-terminals),        *)
+(* Opt-Out delegations left out, next = successor in hash order.  Every        *)
+(* soundness judgement above takes the published records as genuine facts      *)
+(* about the zone, and every completeness judgement takes the chain as given.  *)
+PubRec(x) == [oh |-> x.oh, nh |-> x.nh, types |-> SetOf(x.types), optout |-> x.optout]
+ChainPub(ev) == { PubRec(ev.published[i]) : i \in DOMAIN ev.published }
+AuditH(ev)   == TableOf(ev.ht) @@ <<>>
+ChainExp(ev) == Chain3(zone, apex, ev.oo, AuditH(ev), [id |-> "audit", iter |-> 0])
+Proj3(r)     == [oh |-> r.oh, nh |-> r.nh, types |-> r.types, optout |-> r.optout]
+ChainCheck ==
+    /\ e.ev = "chain" /\ HasZone
+    /\ LET pub == ChainPub(e)
+           exp == ChainExp(e)
+           H   == AuditH(e)
+           missing == { r \in exp : Proj3(r) \notin pub }
+           extra   == { x \in pub : x \notin { Proj3(r) : r \in exp } } IN
+       \/ missing = {} /\ extra = {}
+       \/ ~(missing = {} /\ extra = {}) /\
+          PrintT(<<"MISMATCH", ToJson([case |-> cid, line |-> l, event |-> [ev |-> "chain", origin |-> "audit", oo |-> e.oo],
+                  judge |-> [missing |-> { [name |-> r.on, next |-> r.nn, types |-> r.types] : r \in missing },
+                             extra |-> { [names |-> { n \in DOMAIN H : H[n] = x.oh },
+                                          nextNames |-> { n \in DOMAIN H : H[n] = x.nh }, types |-> x.types,
+                                          optout |-> x.optout] : x \in extra }]])>>)
+    /\ UNCHANGED <<apex, zone, cid>>
+
+Next == l <= Len(Rec) /\ l' = l + 1 /\ (Reset \/ Check \/ ChainCheck)
 TraceSpec == Init /\ [][Next]_tvars
 
 Consumed ==
